@@ -68,6 +68,10 @@ def gen_history(st):
              # memory layout of the two arrays handed to the library: the same numbers as contiguous arrays (two histories in three)
              # or as non-contiguous views (every second element of a larger array, a reversed view, Fortran order for multivariate data)
              "layout": [rng.choice(["c", "c", "c", "c", "strided", "reversed", "fortran"]) for _ in range(2)]}
+    brng = st("refill")      # a stream of its own: the second content of the series buffer does not shift the rest of the workload
+    def _alt(v):
+        return [_alt(x) for x in v] if isinstance(v, list) else (float(brng.below(4)) if grid == 0 else ((brng.below(9) - 4) * 0.5 if grid == 1 else round(brng.uniform(-3, 3), 2)))
+    setup["series_b"] = _alt(ser)
     nsess = 2 + rng.below(3)
     programs = [[] for _ in range(nsess)]
     sid = 0
@@ -105,7 +109,7 @@ def gen_history(st):
             elif k < 16:
                 programs[s].append({"op": "align", "fast": rng.below(3) == 0})
             elif k < 17:
-                programs[s].append({"op": "reset"})
+                programs[s].append({"op": "reset"} if rng.below(3) else {"op": "refill"})
             elif k < 18:
                 programs[s].append({"op": "mf"})
             else:
@@ -129,7 +133,12 @@ def _mk(setup):
     lay = setup.get("layout", ["c", "c"])
     q = _layout(np.array(setup["query"], dtype=np.double), lay[0])
     s = _layout(np.array(setup["series"], dtype=np.double), lay[1])
-    return SubsequenceAlignment(q, s, penalty=setup["penalty"], use_c=setup["use_c"])
+    sa = SubsequenceAlignment(q, s, penalty=setup["penalty"], use_c=setup["use_c"])
+    _LIVE["series"] = s       # the caller's own array (the harness is the caller): refilled in place by the 'refill' op
+    return sa
+
+
+_LIVE = {"series": None}
 
 
 def _layout(a, kind):
@@ -224,6 +233,7 @@ def execute(history):
     fin = sorted(v for v in model_mf if v < math.inf)
     near_tie = any(b - a < 1e-7 for a, b in zip(fin, fin[1:]))
     sa = _mk(setup)
+    live_series = _LIVE["series"]
     streams, matches = {}, {}
     viols = []
     cnt = {}
@@ -251,6 +261,28 @@ def execute(history):
                 bump("op:reset")
                 # reset() drops the computed alignment: generators and matches handed out before it are void by
                 # contract (they dereference the dropped state); only what is opened afterwards is checked
+                for st in streams.values():
+                    if not st["done"]:
+                        st["done"] = True
+                        bump("streams_voided_by_reset")
+                for mm in matches.values():
+                    mm["void"] = True
+            elif kind == "refill":
+                # The caller overwrites its series buffer IN PLACE with other numbers (same length) and resets the object: from
+                # here on everything is judged against the new content.  Generators and matches from before are void, as after reset().
+                if "series_b" not in setup or len(setup["series_b"]) != ls:
+                    continue
+                live_series[...] = np.array(setup["series_b"], dtype=np.double)
+                sa.reset()
+                bump("op:refill_in_place_and_reset")
+                setup = dict(setup, series=setup["series_b"], series_b=setup["series"])
+                s = setup["series"]
+                if ls <= 12:
+                    model_mf, _ = dtw_ref.subsequence_matching(q, s, penalty=pen, ndim=nd)
+                else:
+                    model_mf = dtw_ref.subsequence_matching_free_start(q, s, penalty=pen, ndim=nd)
+                fin = sorted(v for v in model_mf if v < math.inf)
+                near_tie = any(b - a < 1e-7 for a, b in zip(fin, fin[1:]))
                 for st in streams.values():
                     if not st["done"]:
                         st["done"] = True
